@@ -480,10 +480,16 @@ pub fn check_statement_tiling(ctx: &mut Ctx, builder: &RunnableBuilder, case: &d
             ctx.violation("statement-ranges-do-not-tile", format!("statement {i} has range {}..{} / instruction {} but the previous one ended at {pos} / instruction {ii}", s.start_offset, s.end_offset, s.instruction_idx), case());
             return;
         }
-        // advance instructions
+        // advance instructions - by the number of words each one really assembles to (not by `op_size()`, the
+        // toolchain's own assumption, which is what the recorded ranges are built from)
         let mut o = pos;
         while o < s.end_offset && ii < casm.instructions.len() {
-            o += casm.instructions[ii].body.op_size();
+            let words = casm.instructions[ii].assemble().encode().len();
+            if words != casm.instructions[ii].body.op_size() {
+                ctx.violation("instruction-size-assumption-wrong", format!("`{}` assembles to {words} words, the toolchain lays code out assuming {}", casm.instructions[ii], casm.instructions[ii].body.op_size()), case());
+                return;
+            }
+            o += words;
             ii += 1;
         }
         if o != s.end_offset {
@@ -492,7 +498,7 @@ pub fn check_statement_tiling(ctx: &mut Ctx, builder: &RunnableBuilder, case: &d
         }
         pos = s.end_offset;
     }
-    let total: usize = casm.instructions.iter().map(|i| i.body.op_size()).sum();
+    let total: usize = casm.instructions.iter().map(|i| i.assemble().encode().len()).sum();
     if pos > total {
         ctx.violation("statement-ranges-exceed-code", format!("statement ranges end at {pos}, code has {total} words"), case());
     }
